@@ -85,7 +85,13 @@ def gen_scenario(seed):
                 path = rng.pick(names)
             if who != "human":
                 steps.append({"op": "human_checkpoint", "paths": [path]})
-            kind = S.gen_edit(rng, w, path, who, "plain")
+            if who == "human" and path in head and w.files.get(path) != head[path] and rng.chance(1, 6):
+                # the person puts the file back to its HEAD content (git restore / checkout -- / undo)
+                w.files[path] = [list(l) for l in head[path]]
+                kind = "restore"
+                tags.append("edit=restore-to-head")
+            else:
+                kind = S.gen_edit(rng, w, path, who, "plain")
             steps.append({"op": "edit", "who": who, "path": path, "kind": kind, "lines": [list(l) for l in w.files[path]]})
             if rng.chance(1, 5):
                 # an explicit checkpoint between edits (takes pending attribution over into the working log)
